@@ -3,7 +3,7 @@ import os, shutil, json
 import common, polyrun, psetrun, gen_pset
 
 COQ = ["Base/FM.v", "Base/Sys.v", "Base/Gens.v", "Poly/PolyOps.v", "Base/Sup.v", "Poly/PolyQuery.v",
-       "Powerset/PS.v", "Powerset/PSDom.v", "Powerset/UnionIncl.v", "Powerset/PSPoly.v", "Powerset/Cow.v"]
+       "Powerset/PS.v", "Powerset/PSDom.v", "Powerset/UnionIncl.v", "Powerset/PSPoly.v", "Powerset/Cow.v", "Powerset/PP.v"]
 
 TRUSTED = [
     "Coq 8.16.1 kernel (coqc); vm_compute only in the Examples and in the _refuted counter-model; no native_compute",
@@ -45,7 +45,7 @@ def run(chk):
         "generator hints for the hull come from the library's own generators, adopted only after dd_pair proved them equal to the disjunct's constraints; a rejected hint makes the hull the universe (sound) and shows up as a disagreement",
     ]
     chk.prove(COQ)
-    os.environ.setdefault("VERIF_JUDGE_BUDGET", "3.0")
+    os.environ.setdefault("VERIF_JUDGE_BUDGET", "2.0")
     common.coq_extract("Extract_pset.v", ["pset.ml", "pset.mli"], deps=COQ + ["Extract/Extract_pset.v"])
     judge = common.ocaml_build("judge_pset", ["gen/pset.mli", "gen/pset.ml", "zutil_pset.ml", "judge_pset.ml"])
     exe = common.compile_harness("run_pset.cc")
@@ -60,9 +60,9 @@ def run(chk):
         obj = json.load(open(chk.replay))
         lines = list(obj.get("case", []))
     else:
-        n1 = 150 if chk.quick else 1800
-        n2 = 60 if chk.quick else 800
-        n3 = 25 if chk.quick else 300
+        n1 = 150 if chk.quick else 4000
+        n2 = 60 if chk.quick else 2500
+        n3 = 25 if chk.quick else 800
         lines += gen_pset.make_cases(chk.seed * 1000 + 1, n1, start=0, maxdim=2, nobj=3, steps=10, pq=0.25)
         # reductions only (dense in omega_reduce / collapse / pairwise_reduce / lub on redundant sequences)
         lines += gen_pset.make_cases(chk.seed * 1000 + 2, n2, start=n1, maxdim=2, nobj=2, steps=12, pq=0.15, dimops=False,
@@ -84,6 +84,7 @@ def run(chk):
     chk.extra["cases"] = stat.get("cases", 0)
     chk.extra["verified_checks"] = stat.get("checks", 0)
     chk.extra["judge_timeouts"] = stat.get("timeouts", 0)
+    chk.extra["cases_abandoned_after_3_timeouts"] = cov.get("case-abandoned-after-3-timeouts", 0)
     chk.extra["operation_histogram"] = {k[3:]: v for k, v in sorted(cov.items()) if k.startswith("op:")}
     chk.extra["query_histogram"] = {k[4:]: v for k, v in sorted(cov.items()) if k.startswith("qry:")}
     chk.extra["cow_histogram"] = {k[3:]: v for k, v in sorted(cov.items()) if k.startswith("cw:")}
